@@ -15,7 +15,7 @@ import (
 // value), a key dropped, the limit moved to another column, one more caller, a second handle sharing the
 // batch function, the call wrapped in a transaction or a sequence, another chunk size.
 
-var readFamily = []string{"query", "queryrow", "fullscan", "count"}
+var readFamily = []string{"query", "queryrow", "fullscan", "basequery", "count"}
 var writeFamily = []string{"insert", "upsert", "update", "delete"}
 var bulkFamily = []string{"insertrows", "upsertrows"}
 
@@ -299,6 +299,13 @@ func (g *gen) variant(seed Case) Case {
 					c.Sub = g.editSub(t, c.Sub, limits)
 				}
 			}
+		}
+	}
+	if len(c.Steps) > 0 { // keep the chain of With* calls in line with the (possibly edited) handle
+		_, explain, _ := sqlh.HandleOf(c.Steps)
+		c.Steps = sqlh.StepsOf(c.Handle)
+		if explain {
+			c.Steps = append(c.Steps, sqlh.Step{Kind: "explain"})
 		}
 	}
 	return c
